@@ -4,6 +4,9 @@ import TxdbusModel.Gen.Message
 import TxdbusModel.Msg.Message
 import TxdbusModel.Msg.SpecMsg
 import TxdbusModel.Wire.Code
+import TxdbusModel.Msg.WireCodec
+import TxdbusModel.Proofs.Wire.Conf
+import TxdbusModel.Proofs.Wire.CodePrim
 /-!
 Driver for property C03.  One operation per line (tokens separated by single spaces).
 
@@ -21,6 +24,21 @@ Driver for property C03.  One operation per line (tokens separated by single spa
   remarshal <byteshex> <fds> <sender>      what the bus does with a received message: parseMessage, `msg.sender = sender`,
       `msg.endian = raw[0]`, `msg._marshal(False, rawBody=msg.rawBody)`       (sender = s<strhex>)
       -> `ok raw=<hex>` | `err kind=<ExceptionName>`
+  buildw <cls> <next> <max> <er> <as> <path> <member> <iface> <errname> <rserial> <dest> <sender> <sig> <oob> <body>
+      the same constructor call with the body codec `wireCodec` (Msg/WireCodec.lean) - THE INSTANCE `parse_marshal_c01*` ARE
+      ABOUT: the model marshals the body itself with C01's code model.  oob = N | n (the list [900, 901, ...]); <body> = N
+      (body=None) or one value in the syntax of Driver/Val.lean (to the end of the line).  Then `parseMessage` with
+      `wireCodec` on the bytes, descriptor list = what marshal collected (`[]` when oobFDs=None).
+      -> `ok serial=<n> next=<n> raw=<hex> hdr=<hex> pad=<hex> body=<hex> ufds=<attr> fds=<N|-|i,j,..> cert=<c> thm=<t> pval=<p>`
+       | `err kind=<ExceptionName> next=<n> cert=<c>`
+      cert: `1` the case satisfies every premise of `parse_marshal_c01_checked` (oobFDs=[]) / `parse_marshal_c01_checked_none`
+      (oobFDs=None) other than `construct = ok` (signature parses to WF types and renders back, `Code.toSpecTop` /
+      `toSpecTopNoFd`, `Code.keysOKCheck`, `Spec.encodeAll Code.genAlign` at offset 0, depth within the fuel, counter >= 1);
+      `nobody` the premises of `parse_marshal_no_body`; `-` a pre-filled descriptor list (outside the theorems);
+      `0:<which premise>` otherwise.
+      thm: with cert=1, the theorem's conclusion re-checked on the evaluated model (rawBody = the spec bytes, parsed body =
+      `plainBList items`, raw header/padding kept, spec bytes at the body's real offset = at 0): `1` | `0` | `-`.
+      pval: `N` (no body), the parsed body value (a list), or `!<ExceptionName>` when parseMessage fails.
   spec <l|B> <type> <flags> <serial> <n> (<code> <typecode> <value>)*n <bodyhex>      Spec.encodeMsg
       value = decimal unsigned integer for a fixed-size type, s<strhex> for s/o/g
       -> `<byteshex>`
@@ -187,6 +205,140 @@ def buildStep (toks : List String) : String :=
     | _, _, _, _, _, _, _ => "bad-input"
   | _ => "bad-input"
 
+/-- Step budget of the body codec (as Driver/WireOps.lean). -/
+def wFuel : Nat := 300
+
+/-- Step budget of `Code.toSpecTop` (as Driver/WireOps.lean). -/
+def specFuel : Nat := 200000
+
+def oobW? (t : String) : Option (Option (List PyVal)) :=
+  if t == "N" then some none else t.toNat?.map fun n => some ((List.range n).map fun i => .int .plain (900 + (i : Nat)))
+
+def fdsStr : Option (List PyVal) → String
+  | none => "N"
+  | some [] => "-"
+  | some l => ",".intercalate (l.map fun v => match v with
+      | .int _ n => toString n
+      | _ => "?")
+
+def pyListBeq (a b : List PyVal) : Bool := printVals a == printVals b
+
+/-- The executable premises of `parse_marshal_c01_checked` / `parse_marshal_c01_checked_none` (all but `construct = ok`)
+and, when they hold, the conclusion re-checked on the evaluated model. -/
+def certify (nxt : Nat) (sg : Option (List Char)) (body : Option PyVal) (oob : Option (List PyVal))
+    (res : Except PyErr (Msg PyVal)) (parsed : Option (Except PyErr (Msg PyVal))) : String × String :=
+  match sg with
+  | none => ("nobody", "-")
+  | some [] => ("nobody", "-")
+  | some sig =>
+    if nxt < 1 then ("0:counter", "-") else
+    match oob with
+    | some (_ :: _) => ("-", "-")
+    | _ =>
+      match parseSig sig, body with
+      | none, _ => ("0:signature", "-")
+      | _, none => ("0:no-body", "-")
+      | some ts, some pv =>
+        if renderAll ts != sig then ("0:render", "-")
+        else if !allWF ts then ("0:wf", "-")
+        else
+          let chk : Option (List Val × List PyVal) :=
+            match oob with
+            | none => (toSpecTopNoFd specFuel ts pv).map fun vs => (vs, [])
+            | some _ => Code.toSpecTop specFuel ts pv
+          match chk with
+          | none => ("0:not-conforming", "-")
+          | some (vs, fdl) =>
+            if !Code.keysOKCheck pv then ("0:keys", "-")
+            else match Spec.encodeAll Code.genAlign .little ts vs 0 with
+              | none => ("0:limits", "-")
+              | some bs =>
+                if depthAll vs > wFuel then ("0:fuel", "-")
+                else
+                  let thm : String :=
+                    match res, parsed, Code.structFields pv with
+                    | .ok m, some (.ok m'), some items =>
+                      let atPlace := Spec.encodeAll Code.genAlign .little ts vs (m.rawHeader ++ m.rawPadding).length
+                      if m.rawBody == bs && m'.rawBody == bs && m'.rawHeader == m.rawHeader && m'.rawPadding == m.rawPadding
+                         && m'.otherFlags == 0 && atPlace == some bs && m.raw == m.rawHeader ++ m.rawPadding ++ bs
+                         && (match m'.body with
+                             | some (.list got) => pyListBeq got (Code.plainBList items)
+                             | _ => false)
+                         && (match oob with
+                             | none => true
+                             | some _ => pyListBeq fdl ((match (wireCodec wFuel).marshal sig (some pv) oob with
+                                                         | .ok (_, some l) => l
+                                                         | _ => [])))
+                      then "1" else "0"
+                    | .error _, _, _ => "-"          -- the constructor refused (a name, the size limit): `h` of the theorem fails
+                    | _, _, _ => "0"
+                  ("1", thm)
+
+def buildwStep (toks : List String) : String :=
+  match toks with
+  | cls :: nxt :: mx :: er :: as :: path :: member :: iface :: errname :: rserial :: dest :: sender :: sg :: oob :: rest =>
+    match nxt.toNat?, mx.toNat?, bool? er, bool? as, optStr? path, optStr? member, optStr? iface with
+    | some nxt, some mx, some er, some as, some path, some member, some iface =>
+      let body? : Option (Option PyVal) :=
+        if rest == ["N"] then some none
+        else match parseVals 1 rest with
+          | some ([v], []) => some (some v)
+          | _ => none
+      match optStr? errname, (if rserial == "N" then some none else rserial.toInt?.map some), optStr? dest,
+            optStr? sender, optStr? sg, oobW? oob, body? with
+      | some errname, some rserial, some dest, some sender, some sg, some oob, some body =>
+        let T := Gen.Message.tables
+        let na : Char → Bool := fun _ => false
+        let st : St := ⟨nxt⟩
+        let call : Option (Call PyVal) :=
+          if cls == "call" then
+            some (.methodCall { path := path, member := member, interface := iface, destination := dest,
+                                signature := sg, body := body, expectReply := er, autoStart := as, oobFDs := oob })
+          else if cls == "ret" then
+            rserial.map fun rs => .methodReturn { replySerial := rs, body := body, destination := dest, signature := sg }
+          else if cls == "err" then
+            rserial.map fun rs => .error { errorName := errname, replySerial := rs, destination := dest,
+                                           signature := sg, body := body, sender := sender }
+          else if cls == "sig" then
+            some (.signal { path := path, member := member, interface := iface, destination := dest,
+                            signature := sg, body := body })
+          else none
+        match call with
+        | none => "bad-input"
+        | some c =>
+          let C := wireCodec wFuel
+          let r := construct T C na mx st c
+          match r.2 with
+          | .error e =>
+            "err kind=" ++ pyErrName e ++ " next=" ++ toString r.1.nextSerial ++ " cert=" ++ (certify nxt sg body oob r.2 none).1
+          | .ok m =>
+            -- the descriptor list marshal collected (what the caller's `oobFDs` list holds afterwards)
+            let collected : Option (List PyVal) :=
+              match sg with
+              | some (ch :: cs) =>
+                match C.marshal (ch :: cs) body oob with
+                | .ok (_, f) => f
+                | .error _ => oob
+              | _ => oob
+            let pfds : Option (List PyVal) := some (collected.getD [])
+            let pr := parseMessage T C m.raw pfds
+            let (cert, thm) := certify nxt sg body oob r.2 (some pr)
+            let pval : String :=
+              match pr with
+              | .error e => "!" ++ pyErrName e
+              | .ok m' =>
+                match m'.body with
+                | none => "N"
+                | some v => printVal v
+            "ok serial=" ++ toString m.serial ++ " next=" ++ toString r.1.nextSerial ++
+            " raw=" ++ bytesToHex m.raw ++ " hdr=" ++ bytesToHex m.rawHeader ++
+            " pad=" ++ bytesToHex m.rawPadding ++ " body=" ++ bytesToHex m.rawBody ++
+            " ufds=" ++ attrStr (m.attrs .unixFds) ++ " fds=" ++ fdsStr collected ++
+            " cert=" ++ cert ++ " thm=" ++ thm ++ " pval=" ++ pval
+      | _, _, _, _, _, _, _ => "bad-input"
+    | _, _, _, _, _, _, _ => "bad-input"
+  | _ => "bad-input"
+
 def attrNames : List (Attr × String) :=
   [(.path, "path"), (.interface, "interface"), (.member, "member"), (.errorName, "error_name"),
    (.replySerial, "reply_serial"), (.destination, "destination"), (.sender, "sender"),
@@ -295,6 +447,7 @@ def specStep (toks : List String) : String :=
 def step (line : String) : String :=
   match words line with
   | "build" :: toks => buildStep toks
+  | "buildw" :: toks => buildwStep toks
   | "parse" :: toks => parseStep toks
   | "remarshal" :: toks => remarshalStep toks
   | "spec" :: toks => specStep toks
